@@ -350,6 +350,14 @@ def Proc.answers : Proc → List Use → List (Bytes × Answer)
      | none => []) ++ Proc.answers p us
   | p, .clone v :: us => Proc.answers (p.clone v) us
 
+/-- Reconfigured after use: rounds of uses, each followed by `add_service(s)` on the built value
+(`Routes::add_service` takes the value and returns it with one more route; `RoutesBuilder::from`
++ `add_service` + `routes()` does the same), then a last round of uses.  Clones made in an
+earlier round stay what they were; they are not used again here. -/
+def Proc.rounds (t : Table) : List (List Use × Svc) → List Use → List (Bytes × Answer)
+  | [], last => Proc.answers ⟨[t]⟩ last
+  | (us, s) :: rest, last => Proc.answers ⟨[t]⟩ us ++ Proc.rounds (t.addService s) rest last
+
 /-- The generated server's public constructors and setters (`new`, `from_arc`,
 `with_interceptor`, `accept_compressed`, `send_compressed`, `max_decoding_message_size`,
 `max_encoding_message_size`, `Clone`) and the generator's switches `use_arc_self`,
